@@ -115,10 +115,8 @@ def run_case(args):
         if kind == "series" and case["n"] == 1 and k in ("mod", "ext"):
             # history: a DIFFERENT unit of the same name (other ports) went through Series(nser=1) earlier in this process
             if k == "mod":
-                decoy = h.Module(name=ref)
-                decoy.a, decoy.b, decoy.zz = h.Ports(3)
-                decoy.r = h.primitives.IdealResistor(r=1)(p=decoy.a, n=decoy.b)
-                decoy.r2 = h.primitives.IdealResistor(r=1)(p=decoy.zz, n=decoy.b)
+                from ..design import make_decoy_unit
+                decoy = make_decoy_unit(h, ref)          # (made where the builder makes its modules: the two share their qualified name)
             else:
                 decoy = h.ExternalModule(name=ref, port_list=[h.Port(name="x"), h.Port(name="y"), h.Port(name="zz")], desc="decoy", domain="elsewhere")()
             try:
